@@ -202,6 +202,27 @@ func (b *Builder) RowsEvent(t *hist.Table, kind ev.RowsKind, nrows int) hist.Row
 		}
 		if e.PresentAfter != nil {
 			row.After = b.Image(t, id)
+			if row.Before != nil && b.R.Chance(2, 3) {
+				// a real UPDATE changes few columns: most of the after image repeats the before image
+				for ci := 1; ci < len(row.After); ci++ {
+					if b.R.Chance(3, 4) {
+						row.After[ci] = row.Before[ci]
+					}
+				}
+			}
+		}
+		if n := len(e.Rows); n > 0 && b.R.Chance(1, 3) {
+			prev := e.Rows[n-1]
+			for ci := 1; ci < len(t.Cols); ci++ {
+				if b.R.Chance(1, 2) {
+					if row.After != nil && prev.After != nil {
+						row.After[ci] = prev.After[ci]
+					}
+					if row.Before != nil && prev.Before != nil {
+						row.Before[ci] = prev.Before[ci]
+					}
+				}
+			}
 		}
 		e.Rows = append(e.Rows, row)
 	}
